@@ -59,9 +59,16 @@ func newPool(workDir string, workers, timeoutS int, thorough bool) *Pool {
 var procSem = make(chan struct{}, 16)
 
 func runSolver(sp solverSpec, file string, timeoutS int) (string, string, float64) {
+	return runSolverCtx(context.Background(), sp, file, timeoutS)
+}
+
+func runSolverCtx(parent context.Context, sp solverSpec, file string, timeoutS int) (string, string, float64) {
 	procSem <- struct{}{}
 	defer func() { <-procSem }()
-	ctx, cancel := context.WithTimeout(context.Background(), time.Duration(timeoutS+2)*time.Second)
+	if parent.Err() != nil {
+		return "cancelled", "", 0
+	}
+	ctx, cancel := context.WithTimeout(parent, time.Duration(timeoutS+2)*time.Second)
 	defer cancel()
 	args := sp.args(file, timeoutS)
 	cmd := exec.CommandContext(ctx, args[0], args[1:]...)
@@ -78,6 +85,9 @@ func runSolver(sp solverSpec, file string, timeoutS int) (string, string, float6
 		return first, txt, dt
 	case "timeout":
 		return "timeout", txt, dt
+	}
+	if parent.Err() != nil {
+		return "cancelled", txt, dt
 	}
 	if ctx.Err() != nil || strings.Contains(txt, "timeout") || strings.Contains(txt, "interrupted") {
 		return "timeout", txt, dt
@@ -156,46 +166,43 @@ func (p *Pool) solveWith(name, query string, tmo int) *solveResult {
 		}
 		lead := solvers[0]
 		if strings.Contains(query, "fp.") {
-			// floating-point goals: cvc5 decides in a second what z3 needs tens of seconds for
+			// floating-point goals: cvc5 decides in a second what z3-new needs tens of seconds for
 			lead = solvers[2]
-			first = tmo
 		}
 		st, out, _ := runSolver(lead, file, first)
 		res.all[lead.name] = st
 		if decisive(st) {
 			res.status, res.solver, res.output = st, lead.name, out
 		} else {
+			// all three race; the first decisive answer wins and the others are stopped
 			type r struct {
 				sp  solverSpec
 				st  string
 				out string
 			}
-			// cvc5 alone next: it decides most FP/quantified goals z3 is slow on
-			st2, out2, _ := runSolver(solvers[2], file, tmo)
-			res.all[solvers[2].name] = st2
-			if decisive(st2) {
-				res.status, res.solver, res.output = st2, solvers[2].name, out2
-				goto done
-			}
+			ctx, cancel := context.WithCancel(context.Background())
 			ch := make(chan r, 3)
-			for _, sp := range solvers[:2] {
+			for _, sp := range solvers {
 				go func(sp solverSpec) {
-					st, out, _ := runSolver(sp, file, tmo)
+					st, out, _ := runSolverCtx(ctx, sp, file, tmo)
 					ch <- r{sp, st, out}
 				}(sp)
 			}
 			res.status = "unknown"
-			for i := 0; i < 2; i++ {
+			for i := 0; i < 3; i++ {
 				rr := <-ch
-				res.all[rr.sp.name] = rr.st
+				if rr.st != "cancelled" {
+					res.all[rr.sp.name] = rr.st
+				}
 				if decisive(rr.st) && !decisive(res.status) {
 					res.status, res.solver, res.output = rr.st, rr.sp.name, rr.out
-					break // the others finish on their own time limit; files are kept until they exit
+					cancel()
 				}
 				if rr.st == "error" && res.output == "" {
 					res.output = rr.out
 				}
 			}
+			cancel()
 			if !decisive(res.status) {
 				res.status = "unknown"
 				for _, s2 := range res.all {
@@ -215,7 +222,7 @@ func (p *Pool) solveWith(name, query string, tmo int) *solveResult {
 			}
 		}
 	}
-done:
+
 	res.time = time.Since(t0).Seconds()
 	p.mu.Lock()
 	p.cache[h] = res
